@@ -108,7 +108,19 @@ CInit == Init /\ phase = "build" /\ env = <<0, 0>> /\ pol = <<>> /\ cs = CS0
 
 Build == phase = "build" /\ AddZone /\ UNCHANGED cvars
 
-Start == /\ phase = "build" /\ Admitted /\ ~under
+(* Not composed (found by this model with sign-encoded limits, reproduced on the real code at toy scale: zones   *)
+(* -8 [0,3) | 8 [3,11) | 4 [11,31), forces 2, 5 -> `Speed limit violated! speed=7, speed_limit=6`): a braking      *)
+(* curve that is abandoned at the start of the path after crossing a boundary between two zones of EQUAL          *)
+(* magnitude (possible only through the sign encoding). recalc then pushes that boundary's start point after      *)
+(* the abandoned curve point; calc_speeds, searching from the end of the table, stops at the boundary point and   *)
+(* never reaches the curve point behind it, so upstream of the boundary the train is given the full limit as      *)
+(* target. At realistic scale the same geometry (a curve reaching back to within a train length of the origin)    *)
+(* makes recalc return its descriptive error instead.                                                             *)
+HiddenTarget == \E k \in 1..(Len(tbl) - 1) :
+                  /\ tbl[k][1] <= 0 /\ tbl[k+1][1] > 0
+                  /\ \E i \in 2..Len(sp) : sp[i][1] = tbl[k+1][1] /\ V(sp, i) = V(sp, i-1)
+
+Start == /\ phase = "build" /\ Admitted /\ ~under /\ ~HiddenTarget
          /\ phase' = "run"
          /\ env' \in Envs
          /\ IF Free THEN pol' = <<>> ELSE pol' \in Policies
